@@ -9,10 +9,12 @@ pub fn dispatch(ctx: &Ctx) -> i32 {
         "C01" => e1::check_file_prop(ctx, e1::FileProp::C01),
         "C15" => e1::check_file_prop(ctx, e1::FileProp::C15),
         "C08" => e1::check_c08(ctx),
-        "C02" => e1::check_file_prop(ctx, e1::FileProp::C02),
+        "C02" => combine(ctx, e1::collect_file_prop(ctx, e1::FileProp::C02), frag::collect(ctx, "C02")),
         "C03" => timing::check_c03(ctx),
         "C04" => contract::check(ctx, contract::Which::C04),
-        "C05" => contract::check(ctx, contract::Which::C05),
+        "C05" => combine(ctx, contract::collect(ctx, contract::Which::C05), frag::collect(ctx, "C05")),
+        "C10" => frag::check(ctx, "C10"),
+        "C11" => frag::check(ctx, "C11"),
         "C06" => contract::check(ctx, contract::Which::C06),
         p => {
             eprintln!("no check for {p}");
@@ -25,6 +27,7 @@ pub fn replay(prop: &str, case: &serde_json::Value) -> i32 {
     match case["engine"].as_str() {
         Some("E1") => e1::replay(prop, case),
         Some("contract") => contract::replay(prop, case),
+        Some("E5") => frag::replay(prop, case),
         e => {
             eprintln!("unknown engine {e:?}");
             2
@@ -33,3 +36,19 @@ pub fn replay(prop: &str, case: &serde_json::Value) -> i32 {
 }
 pub mod timing;
 pub mod contract;
+pub mod frag;
+
+use oracle::report::{Meta, Tally};
+
+/// Two engines serving one property: tallies are merged, the rules concatenated.
+fn combine(ctx: &Ctx, a: (Tally, Meta), b: (Tally, Meta)) -> i32 {
+    let (mut t, mut m) = a;
+    t.merge(b.0);
+    m.rule = format!("(1) {} (2) {}", m.rule, b.1.rule);
+    m.bound = format!("(1) {} (2) {}", m.bound, b.1.bound);
+    m.assumptions.extend(b.1.assumptions);
+    m.assumptions.sort();
+    m.assumptions.dedup();
+    m.exhaustive = m.exhaustive && b.1.exhaustive;
+    oracle::report::finish(ctx, &t, m)
+}
